@@ -7,7 +7,7 @@ from . import maps
 
 ID = "C10"
 LEVEL = "exploration"
-BUDGET = {"quick": 3000, "thorough": 300000}
+BUDGET = {"quick": 3000, "thorough": 900000}
 RULE = ("case families: (scalar) one Int/Float/String/Type/plain-struct/Ref value materialised through two generated "
         "histories out of {heap new, stack, embedded in Array/List, Table key/value, Tree key/value, copy, assign over a "
         "pre-used object}; (seq) one element list built as Array/List/Tuple through direct construction, pushes, detours "
